@@ -359,10 +359,14 @@ class Plane:
             # a mask array (with mask=None rescale would take every sample
             # that is exactly 0.0 - the node line of a signed amplitude - for
             # a hole in the aperture and damp its neighbours)
+            # (... together with every sample where the amplitude array is not
+            # zero: a map that continues smoothly past the edge of an explicit
+            # mask - a flat field, a Gaussian beam - is not cut, and so not
+            # damped, along the mask's rim; the rescaled mask does the cutting)
             support = None
             if plane._mask.ndim > 1:
                 support = plane._mask if plane._mask.ndim == 2 else np.sum(plane._mask, axis=0)
-                support = (np.asarray(support) != 0).astype(float)
+                support = ((np.asarray(support) != 0) | (plane.amplitude != 0)).astype(float)
             plane.amplitude = lentil.rescale(plane.amplitude, scale=scale, shape=None,
                                                 mask=support, order=3, mode='nearest',
                                                 unitary=False)/scale
